@@ -13,6 +13,8 @@ hint = {
     "1": "Prefer a change in shared mutable state, cursor/offset/sequence-number logic, ordering of two steps (publish before write, notify before done, check after act), or a boundary condition.",
     "3": "Stay off the beaten track: pick a less-used class, overload or configuration option among the anchored code (or a helper it depends on), an error/timeout/failure path, or state carried over from an earlier cycle/call, rather than the main happy path of the most prominent class.",
     "4": "The obvious slips have been tried already. Look for something subtle: an effect that only shows on the second or third repetition, an interaction between two features (e.g. shutdown during flush, a timeout expiring exactly while work completes, a limit reached exactly), a memory-ordering-free logical race between three parties, or a rarely taken branch whose result is only observable later.",
+    "5": "Read the WHOLE statement and pick a clause that is easy to overlook (often the second half of a sentence, an 'or', a 'never', a parenthesis), then break only that clause. Good places: a code path reached only through a non-default option, overload or second instance (a second processor / reader / meter / logger / handle / view), through state left behind by an earlier cycle or call, through an error / timeout / failure return of a collaborator, or at an exact limit (N vs N+1). The main path of the most prominent class must keep working.",
+    "6": "Think like a refactoring gone subtly wrong: a helper extracted and called once too often or too seldom, a loop bound or comparison changed in a rarely hit branch, a cache/memo that is not invalidated, a moved-from or stale value reused, a default argument changed, the order of two independent-looking statements swapped, an equality replaced by a prefix/hash/partial comparison. The slip must sit in code the property is anchored in (or a helper it depends on) and must need a specific multi-step history or input to show.",
     "2": "Prefer a DIFFERENT kind of change than the most obvious one: e.g. two cooperating sites that each look fine alone, a special case taken only for an unusual input/configuration, a lifetime/ownership slip, a wrong default, an early return on a rare path.",
 }.get(n, "")
 print("""You are helping to evaluate a verification effort for the C++ library opentelemetry-cpp. Your job is to act as a careless-but-plausible maintainer: introduce ONE realistic defect into the library that breaks a given semantic property, yet still compiles and passes the library's existing test suite, and to prove with a demonstration that the defect is real.
